@@ -4,7 +4,8 @@ import json, os, subprocess, sys, time
 args = [a for a in sys.argv[1:] if not a.startswith('--')]
 tier = 'thorough' if '--thorough' in sys.argv else 'quick'
 sid, checks = args[0], args[1:]
-patch = '/verif/seeded/%s/patch.diff' % sid
+HERE = os.path.dirname(os.path.dirname(os.path.abspath(__file__)))      # the /verif tree this tool belongs to (possibly a snapshot)
+patch = os.path.join(HERE, 'seeded', sid, 'patch.diff')
 # SEED_REPO: a scratch worktree of /repo to patch instead of /repo itself (the checks then import stone from it)
 REPO = os.environ.get('SEED_REPO', '/repo')
 st = subprocess.run('git -C {REPO} status --short'.replace('{REPO}', REPO), shell=True, capture_output=True, text=True).stdout.strip()
@@ -24,7 +25,7 @@ try:
         env = dict(os.environ, VERIF_EVIDENCE_DIR=os.environ.get('SEED_EVIDENCE', '/tmp/wt/seeded-evidence'))
         if REPO != '/repo':
             env.update(PYTHONPATH=REPO, VERIF_REPO=REPO)
-        p = subprocess.run(['/verif/check', c, '--tier', tier], capture_output=True, text=True, cwd='/verif', env=env)
+        p = subprocess.run([os.path.join(HERE, 'check'), c, '--tier', tier], capture_output=True, text=True, cwd=HERE, env=env)
         viol = [l for l in p.stdout.split('\n') if l.startswith('VIOLATION') or l.startswith('  identity')]
         results[c] = {'exit': p.returncode, 'violations': viol[:12], 'wall': round(time.time() - t, 1)}
         if p.returncode not in (0, 1):
